@@ -13,6 +13,73 @@ MAXS = 4
 WB = 8 * MAXS          # bytes of one masked word
 
 
+def parse_sexp(text):
+    toks = text.replace("(", " ( ").replace(")", " ) ").split()
+    pos = [0]
+
+    def rd():
+        t = toks[pos[0]]; pos[0] += 1
+        if t == "(":
+            l = []
+            while toks[pos[0]] != ")":
+                l.append(rd())
+            pos[0] += 1
+            return l
+        return t
+    return rd()
+
+
+def ev(e, ins, widths):
+    """concrete evaluation of a (body-less) wexpr: -> (value, width)"""
+    op = e[0]
+    if op == "WIn":
+        i = int(e[1]); return ins[i], widths[i]
+    if op == "WConst":
+        return int(e[2]) & ((1 << int(e[1])) - 1), int(e[1])
+    if op in ("WXor", "WAnd", "WOr"):
+        (a, w), (b, _) = ev(e[1], ins, widths), ev(e[2], ins, widths)
+        return {"WXor": a ^ b, "WAnd": a & b, "WOr": a | b}[op], w
+    if op == "WNot":
+        a, w = ev(e[1], ins, widths); return ~a & ((1 << w) - 1), w
+    if op == "WRotr":
+        k = int(e[1]); a, w = ev(e[2], ins, widths); k %= w
+        return ((a >> k) | (a << (w - k))) & ((1 << w) - 1), w
+    if op == "WShl":
+        k = int(e[1]); a, w = ev(e[2], ins, widths); return (a << k) & ((1 << w) - 1), w
+    if op == "WShr":
+        k = int(e[1]); a, w = ev(e[2], ins, widths); return a >> k, w
+    if op == "WTrunc":
+        k = int(e[1]); a, w = ev(e[2], ins, widths); return a & ((1 << k) - 1), k
+    if op == "WZext":
+        k = int(e[1]); a, w = ev(e[2], ins, widths); return a, k
+    if op == "WConcat":
+        (h, hw), (l, lw) = ev(e[1], ins, widths), ev(e[2], ins, widths)
+        return (h << lw) | l, hw + lw
+    raise ValueError(op)
+
+
+def prog_outs(ptext):
+    m = ptext[ptext.index("p_outs := [") + len("p_outs := ["):ptext.rindex("]")]
+    return [parse_sexp(x) for x in m.split(";")] if m.strip() else []
+
+
+def find_cex(b, outs, post, spec, tries=16, seed=11):
+    """random search for an input on which post(prog(v)) <> spec(v): -> None | dict"""
+    import random
+    rng = random.Random(seed)
+    po, so = prog_outs(post), prog_outs(spec)
+    for t in range(tries):
+        ins = [rng.getrandbits(w) if t else 0 for w in b.in_widths]
+        mid = b.evaluate(ins, outs)
+        mw = [o.w for o in outs]
+        got = [ev(e, mid, mw)[0] for e in po]
+        want = [ev(e, ins, b.in_widths)[0] for e in so]
+        if got != want:
+            k = [i for i in range(len(got)) if got[i] != want[i]][0]
+            return {"inputs": ["%x" % x for x in ins], "observation_index": k, "got": "%x" % got[k], "want": "%x" % want[k]}
+    return None
+
+
 def le64(base):
     e = "(WIn %d)" % base
     for b in range(1, 8):
@@ -59,72 +126,212 @@ def bytes_of_be(e):
     return ["(WTrunc 8 (WShr %d %s))" % (8 * (7 - k), e) for k in range(8)]
 
 
+def bswap64(e):
+    bs = ["(WTrunc 8 (WShr %d %s))" % (8 * k, e) if k else "(WTrunc 8 %s)" % e for k in range(8)]
+    r = bs[7]
+    for k in range(6, -1, -1):
+        r = "(WConcat %s %s)" % (bs[k], r)
+    return r
+
+
+GS = [("id", lambda e: e), ("bswap", bswap64)]
+
+
 def obligations(n):
-    """(function, regions (ordered), args, post program builder, spec program builder) ; input index layout:
-    regions in order (all symbolic), then the random words in call order"""
+    """(function, regions (ordered), args, build(R, g) -> (post, spec)); input index layout: the symbolic regions in
+    order, then whatever else the front end adds; R = indices of the random words in call order; g = how the
+    random word enters (identity in C, byte-swapped in some assembly routines: a bijection either way)"""
     obs = []
-    # load(word, data, trng)
-    regs = [("word", WB, True), ("data", 8, False)]
-    nin = WB + 8
-    obs.append(("load", regs, [("ptr", "word", 0), ("ptr", "data", 0), ("ptr", None, 0)],
-                # observed: value of the new word, the unused shares' bytes
-                prog([value(n, 0)] + ["(WIn %d)" % i for i in range(8 * n, WB)]),
-                # the library clears the surplus shares on load
-                prog([be64(WB)] + ["(WConst 8 0)" for i in range(8 * n, WB)])))
+    sur = ["(WIn %d)" % i for i in range(8 * n, WB)]
+    # load(word, data, trng): the value is the data, the surplus shares are cleared, and share j >= 1 is
+    # the rotation of its own fresh word alone
+    obs.append(("load", [("word", WB, True), ("data", 8, False)], ["word", "data", None],
+                lambda R, g: (prog([value(n, 0)] + [share(0, j) for j in range(1, n)] + sur),
+                              prog([be64(WB)] + [rotr(g(R[j - 1]), 11 * j) for j in range(1, n)] + ["(WConst 8 0)" for _ in sur]))))
     # store(data, word)
-    regs = [("data", 8, True), ("word", WB, False)]
-    obs.append(("store", regs, [("ptr", "data", 0), ("ptr", "word", 0)],
-                prog(["(WIn %d)" % i for i in range(8)]),
-                prog(bytes_of_be(value(n, 8)))))
+    obs.append(("store", [("data", 8, True), ("word", WB, False)], ["data", "word"],
+                lambda R, g: (prog(["(WIn %d)" % i for i in range(8)]), prog(bytes_of_be(value(n, 8))))))
     # randomize(dest, src, trng): value preserved; share j moved by its own fresh word
-    regs = [("dest", WB, True), ("src", WB, False)]
-    rbase = 2 * WB
-    diffs_post = ["(WXor %s %s)" % (share(0, j), "(WIn 0)") for j in range(0)]
-    post = [value(n, 0)] + [share(0, j) for j in range(n)] + ["(WIn %d)" % i for i in range(8 * n, WB)]
-    spec = [value(n, WB)] + \
-           [xor_all([share(WB, 0)] + ["(WIn %d)" % (rbase + j - 1) for j in range(1, n)])] + \
-           ["(WXor %s %s)" % (share(WB, j), rotr("(WIn %d)" % (rbase + j - 1), 11 * j)) for j in range(1, n)] + \
-           ["(WIn %d)" % i for i in range(8 * n, WB)]
-    obs.append(("randomize", regs, [("ptr", "dest", 0), ("ptr", "src", 0), ("ptr", None, 0)], prog(post), prog(spec)))
+    obs.append(("randomize", [("dest", WB, True), ("src", WB, False)], ["dest", "src", None],
+                lambda R, g: (prog([value(n, 0)] + [share(0, j) for j in range(n)] + sur),
+                              prog([value(n, WB)] + [xor_all([share(WB, 0)] + [g(R[j - 1]) for j in range(1, n)])] +
+                                   ["(WXor %s %s)" % (share(WB, j), rotr(g(R[j - 1]), 11 * j)) for j in range(1, n)] + sur))))
     # xor(dest, src)
-    regs = [("dest", WB, True), ("src", WB, False)]
-    obs.append(("xor", regs, [("ptr", "dest", 0), ("ptr", "src", 0)],
-                prog([value(n, 0)] + ["(WIn %d)" % i for i in range(8 * n, WB)]),
-                prog(["(WXor %s %s)" % (value(n, 0), value(n, WB))] + ["(WIn %d)" % i for i in range(8 * n, WB)])))
+    obs.append(("xor", [("dest", WB, True), ("src", WB, False)], ["dest", "src"],
+                lambda R, g: (prog([value(n, 0)] + sur), prog(["(WXor %s %s)" % (value(n, 0), value(n, WB))] + sur))))
     return obs
 
 
+def settle(s, build):
+    """choose, per random word, how it enters (by concrete evaluation); -> (post, spec, description, cex)"""
+    import itertools
+    R = [i for i, d in enumerate(s.in_desc) if d[0] == "rand"]
+    combos = [tuple(0 for _ in R), tuple(1 for _ in R)]
+    if 1 < len(R) <= 4:
+        combos += [c for c in itertools.product((0, 1), repeat=len(R)) if c not in combos]
+    last = None
+    for c in combos:
+        pick = dict(zip(R, c))
+        g = lambda ri: GS[pick[ri]][1]("(WIn %d)" % ri)
+        desc = ",".join(GS[x][0] for x in c) or "-"
+        try:
+            post, spec = build(R, g)
+        except IndexError:
+            return None, None, desc, {"error": "the function draws %d random words, fewer than the masking needs" % len(R)}
+        cex = find_cex(s.b, s.outs, post, spec)
+        if cex is None:
+            return post, spec, desc, None
+        if last is None:
+            last = (post, spec, desc, cex)
+    return last
+
+
+def be32(base):
+    e = "(WIn %d)" % (base + 3)
+    for b in range(2, -1, -1):
+        e = "(WConcat (WIn %d) %s)" % (base + b, e)
+    return e
+
+
+def key_obligations(n, bits):
+    """masked keys: init (mask), extract, randomize_with_trng; the masked key is nw words of 32 bytes"""
+    nw = 2 if bits == 128 else 6
+    kb = bits // 8
+    KW = 32
+    obs = []
+    surplus = lambda w0: [w0 + i for i in range(8 * n, KW)]
+    # init(masked, key): masked is uninitialised before; inputs are the key bytes then the random words
+    if bits == 128:
+        vals = [be64(0), be64(8)]
+    else:
+        vals = [be64(0), be64(8), "(WShl 32 (WZext 64 %s))" % be32(16), "(WZext 64 %s)" % be32(0), be64(4), be64(12)]
+
+    def b_init(R, g):
+        post = [value(n, KW * w) for w in range(nw)] + [share(KW * w, j) for w in range(nw) for j in range(1, n)] + \
+               ["(WIn %d)" % i for w in range(nw) for i in surplus(KW * w)]
+        spec = vals + [rotr(g(R[w * (n - 1) + j - 1]), 11 * j) for w in range(nw) for j in range(1, n)] + \
+               ["(WConst 8 0)" for w in range(nw) for i in surplus(KW * w)]
+        return prog(post), prog(spec)
+    obs.append(("init", [("masked", KW * nw, True, False), ("key", kb, False, True)], ["masked", "key"], b_init))
+
+    def b_extract(R, g):
+        b = kb   # masked bytes start after the key buffer bytes in the input list
+        spec = bytes_of_be(value(n, b)) + bytes_of_be(value(n, b + KW))
+        if bits == 160:
+            spec += bytes_of_be(value(n, b + 2 * KW))[:4]
+        return prog(["(WIn %d)" % i for i in range(kb)]), prog(spec)
+    obs.append(("extract", [("key", kb, True, True), ("masked", KW * nw, False, True)], ["masked", "key"], b_extract))
+
+    # randomize_with_trng(masked, trng): every word keeps its value and every share of it moves by its own
+    # fresh random word (n-1 fresh words per key word, in call order)
+    def b_rand(R, g):
+        post, spec = [], []
+        for w in range(nw):
+            post += [value(n, KW * w)] + [share(KW * w, j) for j in range(n)] + ["(WIn %d)" % i for i in surplus(KW * w)]
+            r = lambda j: g(R[w * (n - 1) + j - 1])
+            spec += [value(n, KW * w)] + [xor_all([share(KW * w, 0)] + [r(j) for j in range(1, n)])] + \
+                    ["(WXor %s %s)" % (share(KW * w, j), rotr(r(j), 11 * j)) for j in range(1, n)] + \
+                    ["(WIn %d)" % i for i in surplus(KW * w)]
+        return prog(post), prog(spec)
+    obs.append(("randomize_with_trng", [("masked", KW * nw, True, True)], ["masked", None], b_rand))
+    return obs
+
+
+def emit(L, names, report, nm, title, s, build):
+    if any(o is None for o in s.outs):
+        print("MISSING kern_mword %s: output left uninitialised" % nm)
+        report[nm] = {"title": title, "translated": False, "error": "output left uninitialised"}
+        return
+    post, spec, gname, cex = settle(s, build)
+    if post is None:
+        print("NOTE kern_mword %s: %s" % (nm, cex["error"]))
+        report[nm] = {"title": title, "translated": True, "concrete_ok": False, "counterexample": cex}
+        # the obligation is emitted as plainly false so that the proof breaks
+        post, spec = prog(["(WConst 1 0)"]), prog(["(WConst 1 1)"])
+    L.append("Definition %s : fn_obl := {| fo_name := \"%s\"; fo_widths := [%s]; fo_prog := %s; fo_post := %s; fo_spec := %s |}." %
+             (nm, title, "; ".join(map(str, s.b.in_widths)), s.b.coq_prog(s.outs), post, spec))
+    names.append(nm)
+    if nm not in report:
+        report[nm] = {"title": title, "translated": True, "random_words": sum(1 for d in s.in_desc if d[0] == "rand"),
+                      "random_word_enters": gname, "instructions": len(s.b.body), "concrete_ok": cex is None, "counterexample": cex}
+
+
 def main(repo, gen):
-    src = os.path.join(repo, "src", "masking", "ascon-masked-word-c64.c")
-    txt = llvmx.compile_ll(src, defs=["ASCON_FORCE_C64"], incs=[os.path.join(repo, "src"), os.path.join(repo, "src", "ascon"), os.path.join(repo, "src", "masking")])
-    mod = llvmx.Module(txt)
-    L = ["(* GENERATED by tools/kern_mword.py from /repo's current source (ascon-masked-word-c64.c, clang -O1 LLVM IR) *)",
+    import json, tempfile
+    incs = [os.path.join(repo, "src"), os.path.join(repo, "src", "ascon"), os.path.join(repo, "src", "masking"), os.path.join(repo, "src", "core")]
+    L = ["(* GENERATED by tools/kern_mword.py from /repo's current source: masked word toolkit (C64 backend as clang -O1 LLVM IR; x86-64 assembly) and masked keys *)",
          "From Coq Require Import List NArith String.", "From AsconV Require Import Sym.Wexpr Sym.Pipe Obl.FnObl.", "Import ListNotations.",
          "Local Open Scope nat_scope.", "Local Open Scope string_scope.", ""]
+    report = {}
+    rand = {"@ascon_trng_generate_64"}
+    cb = {"@ascon_trng_init": lambda ex, a: ex.b.const(32, 1), "@ascon_trng_free": lambda ex, a: None}
+    # --- C64 word toolkit
     names = []
+    mod = llvmx.Module(llvmx.compile_ll(os.path.join(repo, "src", "masking", "ascon-masked-word-c64.c"), defs=["ASCON_FORCE_C64"], incs=incs))
     for n in (2, 3, 4):
-        for (fn, regs, args, post, spec) in obligations(n):
-            full = "@ascon_masked_word_x%d_%s" % (n, fn)
+        for (fn, regs, args, build) in obligations(n):
+            full = "ascon_masked_word_x%d_%s" % (n, fn)
+            nm = "mw_c64_x%d_%s" % (n, fn)
             regions = {name: {"size": size, "symbolic": True, "writable": wr} for (name, size, wr) in regs}
             try:
-                e = llvmx.Exec(mod, full, args, regions, cut=False, rand_fns={"@ascon_trng_generate_64"})
-                segs = e.run()
-            except Stuck as ex:
-                print("MISSING kern_mword x%d_%s: %s" % (n, fn, ex)); continue
-            except KeyError:
-                print("MISSING kern_mword x%d_%s: function not found" % (n, fn)); continue
-            s = segs[0]
-            outs = [o for o in s.outs]
-            if any(o is None for o in outs):
-                print("MISSING kern_mword x%d_%s: output left uninitialised" % (n, fn)); continue
-            nm = "mw_x%d_%s" % (n, fn)
-            L.append("Definition %s : fn_obl := {| fo_name := \"%s\"; fo_widths := [%s]; fo_prog := %s; fo_post := %s; fo_spec := %s |}." %
-                     (nm, full[1:], "; ".join(map(str, s.b.in_widths)), s.b.coq_prog(outs), post, spec))
-            names.append(nm)
-    L.append("Definition mword_obls : list fn_obl := [%s]." % "; ".join(names))
-    L.append("Lemma mword_obls_ok : forallb fn_obl_ok mword_obls = true. Proof. vm_compute. reflexivity. Qed.")
-    write_if_changed(os.path.join(gen, "MWord_c64.v"), "\n".join(L) + "\n")
-    print("kern_mword c64: %d obligations" % len(names))
+                s = llvmx.Exec(mod, "@" + full, [("ptr", a, 0) for a in args], regions, cut=False, rand_fns=rand).run()[0]
+            except (Stuck, KeyError) as ex:
+                print("MISSING kern_mword %s: %s" % (nm, ex)); report[nm] = {"title": full, "translated": False, "error": str(ex)}; continue
+            emit(L, names, report, nm, full + " [c64]", s, build)
+    L.append("Definition mword_c64_obls : list fn_obl := [%s]." % "; ".join(names))
+    # --- x86-64 assembly word toolkit
+    names = []
+    try:
+        import asm_x86
+        path = os.path.join(repo, "src", "masking", "ascon-word-asm-x86-64.S")
+        items, tables, _ = asm_x86.parse(asm_x86.preprocess(path, incs=incs))
+    except Exception as ex:
+        items = None
+        print("MISSING kern_mword x86: %s" % ex)
+    if items:
+        for n in (2, 3, 4):
+            for (fn, regs, args, build) in obligations(n):
+                full = "ascon_masked_word_x%d_%s" % (n, fn)
+                nm = "mw_x86_x%d_%s" % (n, fn)
+                regions = {name: {"size": size, "symbolic": True, "writable": wr} for (name, size, wr) in regs}
+                ri = {r: (("ptr", a, 0) if a else ("int", 0)) for r, a in zip(("rdi", "rsi", "rdx"), args)}
+                try:
+                    s = asm_x86.X86(items, tables, full, ri, regions, rand_fns={"ascon_trng_generate_64"}).run()[0]
+                except (Stuck, KeyError) as ex:
+                    print("MISSING kern_mword %s: %s" % (nm, ex)); report[nm] = {"title": full, "translated": False, "error": str(ex)}; continue
+                emit(L, names, report, nm, full + " [x86-64 asm]", s, build)
+    L.append("Definition mword_x86_obls : list fn_obl := [%s]." % "; ".join(names))
+    # --- masked keys over the C64 word toolkit, KEY_SHARES = 2, 3, 4
+    names = []
+    with tempfile.TemporaryDirectory(prefix="kmw") as td:
+        w = os.path.join(td, "mkey.c")
+        open(w, "w").write('#include "masking/ascon-masked-word-c64.c"\n#include "masking/ascon-masked-key.c"\n')
+        for n in (2, 3, 4):
+            mod = llvmx.Module(llvmx.compile_ll(w, defs=["ASCON_FORCE_C64", "ASCON_MASKED_KEY_SHARES=%d" % n], incs=incs))
+            for bits in (128, 160):
+                for (fn, regs, args, build) in key_obligations(n, bits):
+                    full = "ascon_masked_key_%d_%s" % (bits, fn)
+                    nm = "mk%d_x%d_%s" % (bits, n, fn)
+                    regions = {name: {"size": size, "symbolic": sym, "writable": wr} for (name, size, wr, sym) in regs}
+                    try:
+                        s = llvmx.Exec(mod, "@" + full, [("ptr", a, 0) for a in args], regions, cut=False, rand_fns=rand, callbacks=cb).run()[0]
+                    except (Stuck, KeyError) as ex:
+                        print("MISSING kern_mword %s: %s" % (nm, ex)); report[nm] = {"title": full, "translated": False, "error": str(ex)}; continue
+                    emit(L, names, report, nm, "%s (KEY_SHARES=%d)" % (full, n), s, build)
+    L.append("Definition mkey_obls : list fn_obl := [%s]." % "; ".join(names))
+    L.append("Definition mword_results : list (string * bool) := map (fun o => (fo_name o, fn_obl_ok o)) (mword_c64_obls ++ mword_x86_obls ++ mkey_obls).")
+    write_if_changed(os.path.join(gen, "MWord.v"), "\n".join(L) + "\n")
+    O = ["(* GENERATED by tools/kern_mword.py: the obligations of Gen/MWord.v, checked by evaluation inside Coq *)",
+         "From Coq Require Import List.", "From AsconV Require Import Sym.Wexpr Sym.Pipe Obl.FnObl Gen.MWord.",
+         "Lemma mword_c64_ok : forallb fn_obl_ok mword_c64_obls = true. Proof. vm_compute. reflexivity. Qed.",
+         "Lemma mword_x86_ok : forallb fn_obl_ok mword_x86_obls = true. Proof. vm_compute. reflexivity. Qed.",
+         "Lemma mkey_ok : forallb fn_obl_ok mkey_obls = true. Proof. vm_compute. reflexivity. Qed."]
+    write_if_changed(os.path.join(gen, "MWordObl.v"), "\n".join(O) + "\n")
+    kd = os.path.join(os.path.dirname(gen), "..", "build", "kern")
+    os.makedirs(kd, exist_ok=True)
+    json.dump(report, open(os.path.join(kd, "mword.json"), "w"), indent=1)
+    bad = [k for k, v in report.items() if not v.get("concrete_ok")]
+    print("kern_mword: %d obligations translated, %d with a concrete counter-example or untranslated: %s" % (len(report), len(bad), " ".join(bad)))
 
 
 if __name__ == "__main__":
